@@ -9,6 +9,7 @@ HARNESSES = {
     'unique_seq': {'san': 'asan'},
     'bits_seq': {'san': 'asan'},
     'guard_seq': {'san': 'asan'},
+    'spin_conc': {'san': 'tsan'},
     'qs_seq': {'san': 'asan'},
     'parsers_fuzz': {'san': 'asan', 'cxxflags': ['-fno-sanitize=nonnull-attribute'], 'fuzz_raw': True},
     'printf_diff': {'san': 'asan', 'cxxflags': ['-fno-sanitize=nonnull-attribute']},
@@ -363,7 +364,10 @@ PROPS['C11'] = {
     'assumptions': ['API preconditions stated by the FRG_ASSERTs', 'sequentially consistent interleavings; weak-memory outcomes only through TSan happens-before race detection'],
 }
 PROPS['C12'] = {
-    'runs': [{'harness': 'guard_seq',
+    'runs': [{'harness': 'spin_conc',
+              'quick': {'enum': True, 'rc': rc(1500, sizes=[20, 60, 150], scale=2)},
+              'thorough': {'enum': True, 'rc': rc(30000, sizes=[20, 60, 150, 300], scale=2)}},
+             {'harness': 'guard_seq',
               'quick': {'enum': True, 'rc': rc(8000, sizes=[40, 80, 160])},
               'thorough': {'enum': True, 'rc': rc(150000, sizes=[40, 80, 160, 300]), 'fuzz': {'seconds': 90}}}],
     'rule': 'guards: three slots of unique_lock / shared_lock over two instrumented mutexes; histories of construct locked / dont_lock / adopt_lock / default, lock, unlock, '
